@@ -9,7 +9,7 @@ Writes selftest/RESULTS.json. Never touches /repo's working tree."""
 import json, os, re, subprocess, sys, shutil, time
 
 VERIF = os.path.dirname(os.path.dirname(os.path.abspath(__file__)))
-WT = "/tmp/vf-selftest-repo"
+WT = "/tmp/vf-selftest-repo-%d" % os.getpid()
 
 
 def sh(*a, **kw):
